@@ -13,6 +13,8 @@ TRUSTED_BASE = ["harness/cache_corr.py worlds; store state snapshot/restore betw
 def run(ctx):
     import translate_avs
     translate_avs.check(ctx)       # _add_value_store re-read from caching.py and linked to Cache/Transform.v by a theorem
+    import translate_physical
+    translate_physical.check(ctx)  # plan_with_value_stores (registry loop, output redirection, prune) compiled from caching.py and linked to Transform.physical
     uj = core.use_repo()
     rng = ctx.rng
     tc = transform_corr.TransformCampaign(ctx)
